@@ -39,6 +39,7 @@ def configs(draw):
          "classes": draw(st.integers(2, 4)), "extra": draw(st.integers(0, 3)), "test": draw(st.booleans()),
          "construct_under_no_grad": draw(st.sampled_from([False, False, True])),
          "peek": draw(st.sampled_from([0, 0, 1, 2])), "cb_sets_eval": draw(st.booleans()),
+         "custom_metric": draw(st.booleans()), "no_accuracy": draw(st.sampled_from([False, False, True])),
          "test_under_no_grad": draw(st.booleans())}
     return c
 
@@ -86,7 +87,14 @@ def check_fit(c, rec):
     train_loader = make_loader(c["nbatch"])
     val_loader = make_loader(c["val"]) if c["val"] else None
     ev_mode = {"mse": "binary", "bce_logits": "binary", "ce": "multi-class", "nll": "multi-class", "categorical": "categorical"}[task]
-    evaluator = train_mod.Evaluator(mode=ev_mode) if c["evaluator"] else None
+    def epoch_metric(y_true, y_pred):
+        return [("disagree", np.float64((np.asarray(y_true) != np.asarray(y_pred)).mean()))]
+
+    custom = bool(c.get("custom_metric")) and c["evaluator"]
+    with_acc = not (c.get("no_accuracy") and custom)
+    evaluator = None
+    if c["evaluator"]:
+        evaluator = train_mod.Evaluator(mode=ev_mode, accuracy=with_acc, epoch_callback=epoch_metric if custom else None)
     has_both = c["bn"] and c["dropout"]
     rec.nontrivial(c["epochs"] >= 2 and bool(c["val"]) and has_both)
     rec.tag(task, "val" if c["val"] else "no_val", "evaluator" if c["evaluator"] else "no_evaluator", f"epochs{c['epochs']}")
@@ -237,7 +245,7 @@ def check_fit(c, rec):
     # ---- history ---------------------------------------------------------------------------------
     want_keys = set()
     if E > 0:
-        want_keys = {"loss"} | ({"accuracy"} if evaluator else set())
+        want_keys = {"loss"} | ({"accuracy"} if evaluator and with_acc else set()) | ({"disagree"} if custom else set())
         if nv:
             want_keys |= {"val_" + k for k in want_keys}
     if set(history.keys()) != want_keys:
@@ -257,7 +265,10 @@ def check_fit(c, rec):
             if abs(got - want) > 1e-5 * max(1.0, abs(want)):
                 raise Violation("epoch_loss", f"history['val_loss'][{ep}] = {got}, mean of validation batch losses {want}; {ctx}")
         if evaluator:
-            for key, io_ in (("accuracy", train_io[ep]),) + ((("val_accuracy", val_io[ep]),) if nv else ()):
+            metric_keys = ([("accuracy", train_io[ep])] + ([("val_accuracy", val_io[ep])] if nv else [])) if with_acc else []
+            if custom:
+                metric_keys += [("disagree", train_io[ep])] + ([("val_disagree", val_io[ep])] if nv else [])
+            for key, io_ in metric_keys:
                 correct = total = 0
                 for labels, outputs in io_:
                     if ev_mode == "binary":
@@ -268,6 +279,8 @@ def check_fit(c, rec):
                         pred = outputs.argmax(axis=1); true = labels.argmax(axis=1)
                     correct += int((pred == true).sum()); total += len(true)
                 want = correct / total
+                if key.endswith("disagree"):
+                    want = 1.0 - want
                 got = float(history[key][ep])
                 if abs(got - want) > 1e-9:
                     raise Violation("accuracy", f"history[{key!r}][{ep}] = {got}, fraction of correct predictions is {want}; {ctx}")
